@@ -495,7 +495,9 @@ def _run_async_serialiser(mode: str, spec: Dict[str, Any], ws: List[Any]):
         from chuk_mcp.protocol.types.elicitation import ElicitationHandler, ElicitationParams
 
         sent: List[Any] = []
-        params = ElicitationParams.model_validate(ws[0])
+        # one handler serves the connection: two earlier requests with short-lived parameter objects (same shape, other text)
+        # precede the case's own
+        earlier = {k_: ("earlier: " + v_ if isinstance(v_, str) else v_) for k_, v_ in ws[0].items()} if isinstance(ws[0], dict) else ws[0]
 
         async def go():
             h = None
@@ -505,14 +507,19 @@ def _run_async_serialiser(mode: str, spec: Dict[str, Any], ws: List[Any]):
                 await h.handle_elicitation_response({"jsonrpc": "2.0", "id": msg["id"], "result": {"data": {"a": 1}, "cancelled": False}})
 
             h = ElicitationHandler(send)
+            for _ in range(2):
+                p0 = ElicitationParams.model_validate(earlier)
+                await h.request_user_input(p0, timeout=5)
+                del p0
+            params = ElicitationParams.model_validate(ws[0])
             return await h.request_user_input(params, timeout=5)
 
         from ..vclock import run_virtual
 
         run_virtual(go)
-        if not sent:
+        if len(sent) < 3:
             return None, []
-        return sent[0], [(ws[0], sent[0].get("params"))]
+        return sent[-1], [(ws[0], sent[-1].get("params"))]
     if mode == "completion":
         from chuk_mcp.protocol.messages.completions.send_messages import ArgumentInfo, ResourceReference, send_completion_complete
 
